@@ -101,6 +101,17 @@ CHECKS["C15"] = dict(category="model_checking",
     design_ref="5 (C15)", technique="TLA+ case analysis + implementation-graph exploration with TLC edge validation (dry-run and flag clauses)",
     note="shares machinery with C19, C02 and C04", engine="G")
 
+_OW_TEXT = ("TLC checks the one-way run (plan + effect) over all source/destination trees of a small universe x exclude lists x --delete "
+            "x --dry-run; every case is materialised and executed with the real `copia sync -r` (local, push and pull through the ssh "
+            "stand-in) and followed by a second run; seeded cases cover hostile names, mtimes 0..2^33 with sub-second parts, jobs 1/2/8 and "
+            "induced failures; TLC validates every edge (Conform = RunDst + plan sizes; Monitor = C04 / C14 / C15 formulas).")
+CHECKS["C04"] = dict(category="model_checking", text=_OW_TEXT, design_ref="5 (C04), 4.4",
+    technique="TLA+ run model (TLC exhaustive on a small universe) + execution of every case on the real CLI in three directions + TLC edge validation",
+    note="remote directions through the bash/GNU ssh stand-in; comparison at bytes + whole-second mtime, exact ns for untouched files", engine="G")
+CHECKS["C14"] = dict(category="model_checking", text=_OW_TEXT + " C14: SecondRunEmpty in the model; every successful real run is immediately repeated: plan 0/0, both trees byte- and ns-mtime-identical, and the first run's 'sent' count equals |Transfer|.", design_ref="5 (C14)",
+    technique="TLA+ run model + immediate second real run per edge + TLC edge validation",
+    note="mtime pool: 0, 1, sub-second .999999999, 2^31-1, 2^31, 2^32+1, 2^33", engine="G")
+
 NOT_BUILT = "check not built yet in this round (planned in DESIGN.md section 5)"
 
 
